@@ -805,6 +805,10 @@ where
         }
 
         data.open_files[file_idx].dirty = true;
+        // Record the modification up-front: a write that runs out of space
+        // part-way has still changed the file.
+        data.open_files[file_idx].entry.attributes.set_archive(true);
+        data.open_files[file_idx].entry.mtime = self.time_source.get_timestamp();
 
         if data.open_files[file_idx].entry.cluster.0 < fat::RESERVED_ENTRIES {
             // file doesn't have a valid allocated cluster (possible zero-length file), allocate one
@@ -913,8 +917,6 @@ where
                 .unwrap();
             // Entry update deferred to file close, for performance.
         }
-        data.open_files[file_idx].entry.attributes.set_archive(true);
-        data.open_files[file_idx].entry.mtime = self.time_source.get_timestamp();
         Ok(())
     }
 
